@@ -28,6 +28,7 @@ def strat_adjust(tier):
         'noise': st.sampled_from([0.0, 0.1, 1.0]),
         'affine_seed': st.integers(0, 10 ** 6),
         'subset': st.booleans(),
+        'req_order': st.lists(st.integers(0, 10 ** 6), min_size=3, max_size=3),
     })
 
 
@@ -79,7 +80,12 @@ def run_adjust(case):
         with warnings.catch_warnings():
             warnings.simplefilter('ignore')
             return adjust_posterior(sample, m, sn, parameter_names=names_req)
-    req = list(pn[:1]) if (case['subset'] and len(pn) > 1) else None
+    req = None
+    if case['subset'] and len(pn) > 1:
+        # any non-empty sub-list of the sample's parameters in any order
+        order = sorted(range(len(pn)), key=lambda i: case['req_order'][i] * 7 + i)
+        keep = max(1, len(pn) - 1 - case['req_order'][0] % 2)
+        req = [pn[i] for i in order[:keep]]
     with must_not_raise(P, 'adjust_posterior; ' + ctx):
         adj = run(S, obs, req)
     names = req or list(pn)
@@ -132,6 +138,8 @@ def run_adjust(case):
         labels.append('per-parameter-masks-differ')
     if zero_rows:
         labels.append('zero-row')
+    if req is not None and req != list(pn[:len(req)]):
+        labels.append('requested-parameters-reordered-or-not-a-prefix')
     return CaseResult(labels, True if (k >= 2 and nonfin) else None)
 
 
@@ -143,6 +151,8 @@ def strat_compare(tier):
                            min_size=2, max_size=5),
         'priors': st.one_of(st.none(), st.lists(st.floats(0.05, 5.0, allow_nan=False), min_size=5, max_size=5)),
         'data_seed': st.integers(0, 10 ** 6), 'perm_seed': st.integers(0, 10 ** 6),
+        # integer-valued (tied) discrepancies; cases whose ties at the cut belong to several models are ambiguous and skipped
+        'ties': st.booleans(),
     })
 
 
@@ -153,7 +163,10 @@ def run_compare(case):
     specs = case['models']
     M = len(specs)
     total = sum(s['n'] for s in specs)
-    pool = rs.permutation(total * 3)[:total] * 0.37 + 0.01       # distinct discrepancies
+    if case.get('ties'):
+        pool = rs.randint(0, max(3, total // 2), size=total).astype(float)     # many ties
+    else:
+        pool = rs.permutation(total * 3)[:total] * 0.37 + 0.01       # distinct discrepancies
     samples, chunks = [], []
     at = 0
     for s in specs:
@@ -170,7 +183,12 @@ def run_compare(case):
         got = np.asarray(compare_models(samples, None if priors is None else priors.copy()))
     n_min = min(s['n'] for s in specs)
     cut = np.sort(np.concatenate(chunks))[n_min - 1]
-    counts = np.array([(c <= cut).sum() for c in chunks], dtype=float)
+    below = np.array([(c < cut).sum() for c in chunks], dtype=float)
+    at = np.array([(c == cut).sum() for c in chunks], dtype=float)
+    need = n_min - below.sum()                       # how many of the values equal to the cut belong to the n_min smallest
+    if need < at.sum() and (at > 0).sum() > 1:
+        return CaseResult(['ties-at-the-cut-ambiguous'], None)      # free choice among equal discrepancies of several models
+    counts = below + np.where(at > 0, np.minimum(at, need), 0.0)
     ref = counts / np.array([s['n'] + s['extra_sim'] for s in specs], dtype=float)
     if priors is not None:
         ref = ref * priors
@@ -194,6 +212,8 @@ def run_compare(case):
         labels.append('unsorted-discrepancies')
     if priors is not None:
         labels.append('prior-weights')
+    if case.get('ties') and at.sum() > need:
+        labels.append('ties-straddle-the-cut')
     return CaseResult(labels, True if unequal else None)
 
 
